@@ -66,6 +66,16 @@ pub fn generate(seed: u64, cases: usize, out: &mut Vec<String>) {
                     out.push(format!("sess dbcn {}", r.below(3)));
                     nn += 1;
                 }
+                65..=70 => {
+                    out.push(format!("sess qcn {} {}", k, list_arg(&(0..r.below(3)).map(|_| r.below(3)).collect::<Vec<_>>())));
+                    nn += 1;
+                }
+                71..=76 => {
+                    if nn > 0 {
+                        out.push(format!("sess qce {} {} {} {}", k, r.below(nn), r.below(2), r.below(3)));
+                        // ids stay dense only if the match succeeds; later ops draw from the lower bound
+                    }
+                }
                 _ => reads(&mut r, out, k, nn, ne),
             }
             // a read by some session after (almost) every step
@@ -169,6 +179,29 @@ pub fn run(st: &mut SessSt, args: &[&str]) -> String {
                         .create_edge(NodeId::new(s.parse().unwrap()), NodeId::new(d.parse().unwrap()), &format!("T{}", t))
                         .as_u64()
                 )
+            }
+            // the same two mutations issued as query text (CreateNodeOperator / CreateEdgeOperator)
+            ["qcn", k, ls] => {
+                let k = sess(st, k);
+                let labels: String = parse_u64s(ls).unwrap().iter().map(|c| format!(":L{}", c)).collect();
+                match st.sessions[&k].execute_cypher(&format!("CREATE (n{}) RETURN id(n)", labels)) {
+                    Ok(res) => ids_of_rows(&res.rows),
+                    Err(e) => format!("query-error:{}", e),
+                }
+            }
+            ["qce", k, s, t, l] => {
+                let k = sess(st, k);
+                let q = format!("MATCH (a) WHERE id(a) = {} CREATE (a)-[e:T{}]->(b:L{}) RETURN id(b), id(e)", s, t, l);
+                match st.sessions[&k].execute_cypher(&q) {
+                    Ok(res) if res.rows.is_empty() => "norows".into(),
+                    Ok(res) => res
+                        .rows
+                        .iter()
+                        .map(|r| r.iter().map(crate::vals::tok).collect::<Vec<_>>().join("."))
+                        .collect::<Vec<_>>()
+                        .join(","),
+                    Err(e) => format!("query-error:{}", e),
+                }
             }
             ["dbcn", ls] => {
                 let labels: Vec<String> = parse_u64s(ls).unwrap().iter().map(|c| format!("L{}", c)).collect();
